@@ -118,7 +118,10 @@ def doc_tags(lang, data):
     return tags
 
 
-FIXED_NOTES = {'KA': 'fixed: property=C10 35cd1c2 KA M.Bytes returned the caller\'s slice after the minifier had edited it in place (late error)'}
+FIXED_NOTES = {
+    'KA': 'fixed: property=C10 35cd1c2 KA M.Bytes returned the caller\'s slice after the minifier had edited it in place (late error)',
+    'KC': 'fixed: property=C10 a9dc99b KC minify.Number panicked (start+prec overflow) for a precision within a few units of MaxInt, also through the Precision options',
+}
 FIXED = set(FIXED_NOTES)
 LIFTED = FIXED | set(filter(None, os.environ.get('VERIF_C10_LIFT', '').split(',')))       # trial runs against a patched tree
 
